@@ -435,10 +435,21 @@ class NearestNeighborModel(Model):
             for infinite bc ``E_bond[i]`` is the energy of bond ``i-1, i``.
 
         """
-        if self.lat.bc_MPS == 'infinite':
-            return psi.expectation_value(self.H_bond, axes=(['p0', 'p1'], ['p0*', 'p1*']))
-        # else
-        return psi.expectation_value(self.H_bond[1:], axes=(['p0', 'p1'], ['p0*', 'p1*']))
+        H_bond = self.H_bond
+        L = len(H_bond)
+        # H_bond[i] acts on sites (i-1, i); `psi.expectation_value` picks ``ops[j % len(ops)]`` for the
+        # operator starting on site `j`, hence entry `j` of `ops` has to be the bond (j, j+1).
+        ops = [H_bond[(j + 1) % L] for j in range(L)]
+        bonds = list(range(L)) if self.lat.bc_MPS == 'infinite' else list(range(1, L))
+        E_bond = np.zeros(len(bonds))
+        # entries of H_bond can be None (no terms on that bond): zero energy
+        idx = [k for k, i in enumerate(bonds) if H_bond[i] is not None]
+        if len(idx) > 0:
+            sites = [bonds[k] - 1 for k in idx]
+            vals = np.asarray(psi.expectation_value(ops, sites=sites, axes=(['p0', 'p1'], ['p0*', 'p1*'])))
+            E_bond = np.zeros(len(bonds), dtype=vals.dtype)
+            E_bond[idx] = vals
+        return E_bond
 
     def extract_segment(self, *args, **kwargs):
         cp = super().extract_segment(*args, **kwargs)
